@@ -239,6 +239,31 @@ def retime(ctx, report, clause="1"):
                         dict(case, kept=[g[2] for g in got], required=[k[2] for k in keep]))
                 elif [(g[0], g[1]) for g in got] != [(k[0], k[1]) for k in keep]:
                     bad_map.append(dict(case, times=[(g[0], g[1]) for g in got][:3], required=[(k[0], k[1]) for k in keep][:3]))
+    # one Caption object held twice - by two languages, or twice in one list (CaptionList * 2): it is still retimed once
+    bad_alias = []
+    for label in ("one caption object in two languages", "one caption object twice in one list"):
+        for skew, off in ((1, S), (2, 0), (1.5, -S)):
+            n += 1
+            shared = ev("Caption(a, b, [n])", a=2 * S, b=4 * S, n=ev("CaptionNode.create_text('shared')"))
+            other = ev("Caption(a, b, [n])", a=6 * S, b=8 * S, n=ev("CaptionNode.create_text('other')"))
+            if label.endswith("languages"):
+                cs = ev("CaptionSet({'en-US': CaptionList([s, o]), 'fr': CaptionList([s])})", s=shared, o=other)
+            else:
+                cs = ev("CaptionSet({'en-US': CaptionList([s, s, o])})", s=shared, o=other)
+            try:
+                F.call_function(fn, [], {"offset": off, "rate_skew": skew}, self_value=cs)
+            except FoldRaise as e:
+                bad_alias.append({"caption_set": label, "skew": skew, "offset": off, "raises": e.exc_name or str(e)})
+                continue
+            from .foldutil import captions_by_language
+            want = (2 * S * skew + off, 4 * S * skew + off)
+            for lang, lst in captions_by_language(cs, F, "adjust_caption_timing").items():
+                got = [(c.attrs["start"], c.attrs["end"]) for c in lst if "shared" in "".join(x.attrs.get("content") or "" for x in c.attrs["nodes"])]
+                if any(g != want for g in got) or not got:
+                    bad_alias.append({"caption_set": label, "skew": skew, "offset": off, "language": lang, "times_of_the_shared_caption": got,
+                                      "required": want})
+    report.check(not bad_alias, "R-GRID", fn, "a Caption object the set holds twice (in two languages, or twice in one list) is retimed "
+                 "once: its start and end t become t*skew+offset", {"mismatches": bad_alias[:2]}, clause)
     report.count("retime_configurations_folded", n)
     report.check(not bad_map, "R-GRID", fn, "every start and end t becomes t*skew+offset, in every language",
                  {"configurations": n, "skews": skews, "mismatches": bad_map[:2]}, clause)
